@@ -652,3 +652,13 @@ for _p, _r in (("C02", "R-C02-currents"), ("C15", "R-C15-currents")):
 _OLD_QS = "            channel_states = query_channel_states_and_params(\n                states, channel_state_names, channel_indices\n            )\n\n            states_updated"
 P("C03", BASE, _OLD_QS, "            channel_states = {s: states[s][channel_indices] for s in channel_state_names}\n\n            states_updated")
 B("C03", BASE, _OLD_QS, "            channel_states = {s: states[s] for s in channel_state_names}\n\n            states_updated", "R-C03-rows")
+# lower clamp / compartment centres in other spellings
+_OLD_CL = "        radiuses_each[radiuses_each < min_radius] = min_radius"
+_OLD_CE = "    non_split = 1 / ncomp\n    range_ = np.linspace(non_split / 2, 1 - non_split / 2, ncomp)"
+for _p, _r in (("C16", "R-C16-forms"), ("C13", "R-C13-radius")):
+    P(_p, CU, _OLD_CL, "        radiuses_each = np.maximum(radiuses_each, min_radius)")
+    P(_p, CU, _OLD_CL, "        radiuses_each = np.clip(radiuses_each, min_radius, None)")
+    B(_p, CU, _OLD_CL, "        radiuses_each = np.minimum(radiuses_each, min_radius)", _r)
+    P(_p, CU, _OLD_CE, "    range_ = (np.arange(ncomp) + 0.5) / ncomp")
+    B(_p, CU, _OLD_CE, "    range_ = np.arange(ncomp) / ncomp", _r)
+    B(_p, CU, "radiuses = np.asarray([radius_fns[b](range_) for b in branch_indices])", "radiuses = np.asarray([radius_fns[b](np.linspace(0, 1, ncomp)) for b in branch_indices])", _r)
